@@ -689,6 +689,14 @@ def thread_census_@I@(v):
     extra = sorted(type(t).__name__ for t in threading.enumerate() if t not in before)
     return sorted(sink), extra
 ''', 'thread_census_@I@(@A@)'),
+    ('locals_keeper', '''
+def keeper_@I@(v):  # nt
+    first = v + 1  # nt
+    seen = locals()  # nt
+    second = first * 2  # nt
+    third = [second]  # nt
+    return sorted(seen), len(seen), third  # nt
+''', 'keeper_@I@(@A@)'),
     ('method_exc', '''
 class Acct_@I@:
     def __init__(self, bal):
@@ -778,8 +786,9 @@ def generate(r, dirpath, tag, n_shapes=None, force=None, escaping=None):
         m = re.match(r'\s*def (\w+)\(', line)
         if m:
             p.func_lines[m.group(1)] = no
-        if st and not st.startswith(('#', '"""', "'''", '@', 'class ', 'def ', 'else:', 'try:', 'finally:', 'except',
-                                     'global ', 'nonlocal ')) and no > 20:
+        # (lines marked '# nt' get no tracepoint: reading a frame's locals there would itself be visible to the program)
+        if st and not st.endswith('# nt') and not st.startswith(('#', '"""', "'''", '@', 'class ', 'def ', 'else:', 'try:',
+                                                                  'finally:', 'except', 'global ', 'nonlocal ')) and no > 20:
             p.lines.append(no)
     return p
 
